@@ -58,3 +58,11 @@ Theorem C19_roundtrip : forall c, c <= c_consensus_max ->
   weight_of_cost (cost_of_weight (weight_of_cost c)) = weight_of_cost c.
 Proof. exact cost_weight_roundtrip. Qed.
 Print Assumptions C19_roundtrip.
+
+Theorem C19_cost_of_weight64_spec : forall w, cost_of_weight64 w = N.min (1000 * w) u32_max.
+Proof. exact cost_of_weight64_spec. Qed.
+Print Assumptions C19_cost_of_weight64_spec.
+
+Theorem C19_cost_of_weight64_monotone : forall w1 w2, w1 <= w2 -> cost_of_weight64 w1 <= cost_of_weight64 w2.
+Proof. exact cost_of_weight64_monotone. Qed.
+Print Assumptions C19_cost_of_weight64_monotone.
